@@ -517,6 +517,9 @@ func (rc *replayCtx) runInPackageTestWithMarkers(pkg *types.Package, testSrc, ma
 			continue
 		}
 		src := filepath.Join(ldir, e.Name())
+		if _, dropped := rc.prog.DroppedLemmas[src]; dropped {
+			continue // does not compile against this tree (reported separately)
+		}
 		if e.Name() == "markers.go" {
 			mf := filepath.Join(dir, "markers.go")
 			os.WriteFile(mf, []byte(markers), 0o644)
